@@ -11,6 +11,7 @@ import (
 	"reflect"
 	"strconv"
 	"strings"
+	"time"
 
 	"github.com/vimeo/dials/ptrify"
 	"github.com/vimeo/dials/tagformat"
@@ -67,6 +68,20 @@ type c10OCfg struct {
 	Primary  c10Pair
 	Section  c10OSection
 	Opt      *c10Endpoints
+	// a slice whose ELEMENT type is text-unmarshalable through its pointer (time.Time): one leaf as well
+	Holidays []time.Time
+}
+
+// an embedded POINTER to a struct with an interface-typed field: nothing filled = the pointer stays nil
+type C10ECommon struct {
+	Region string
+	Extra  interface{}
+	Weight int
+}
+
+type c10ECfg struct {
+	*C10ECommon
+	Port int
 }
 
 func c10OpaqueContainers(c *Ctx) {
@@ -83,7 +98,8 @@ func c10OpaqueContainers(c *Ctx) {
 		"text-unmarshaler":  {&transform.TextUnmarshalerMangler{}},
 		"alias+text-unmars": {transform.NewAliasMangler("dials"), &transform.TextUnmarshalerMangler{}},
 	}
-	epType, pairType := reflect.TypeOf(c10Endpoints(nil)), reflect.TypeOf(c10Pair{})
+	epType, pairType, timesType := reflect.TypeOf(c10Endpoints(nil)), reflect.TypeOf(c10Pair{}), reflect.TypeOf([]time.Time(nil))
+	days := []time.Time{time.Date(2024, 12, 25, 0, 0, 0, 0, time.UTC), time.Date(2025, 1, 1, 0, 0, 0, 0, time.UTC)}
 	for name, chain := range chains {
 		for rep := 0; rep < 6; rep++ {
 			a, b := 1+r.Intn(60000), 1+r.Intn(60000)
@@ -111,7 +127,7 @@ func c10OpaqueContainers(c *Ctx) {
 						for base.Kind() == reflect.Ptr {
 							base = base.Elem()
 						}
-						isLeafName := strings.Contains(sf.Name, "Backends") || strings.Contains(sf.Name, "Primary") || strings.Contains(sf.Name, "Mirrors") || strings.Contains(sf.Name, "Opt")
+						isLeafName := strings.Contains(sf.Name, "Backends") || strings.Contains(sf.Name, "Primary") || strings.Contains(sf.Name, "Mirrors") || strings.Contains(sf.Name, "Opt") || strings.Contains(sf.Name, "Holidays")
 						switch {
 						case isLeafName:
 							shape = append(shape, path+sf.Name+" "+ft.String())
@@ -119,6 +135,10 @@ func c10OpaqueContainers(c *Ctx) {
 								continue // the alias copy stays unset
 							}
 							switch {
+							case base == timesType:
+								f.Set(reflect.ValueOf(append([]time.Time(nil), days...)))
+							case strings.Contains(sf.Name, "Holidays"):
+								// (translated into something else: nothing sensible can be written; the shape check reports it)
 							case textual && base.Kind() == reflect.String:
 								t := text
 								f.Set(reflect.ValueOf(&t))
@@ -151,7 +171,7 @@ func c10OpaqueContainers(c *Ctx) {
 				res.Add(Finding{Kind: "violation", What: "translate / reverse failed: " + err.Error(), Case: cs})
 			default:
 				for _, s := range shape {
-					ok := strings.HasSuffix(s, "main.c10Endpoints") || strings.HasSuffix(s, "main.c10Pair") || (textual && strings.HasSuffix(s, "*string"))
+					ok := strings.HasSuffix(s, "main.c10Endpoints") || strings.HasSuffix(s, "main.c10Pair") || strings.HasSuffix(s, "[]time.Time") || (textual && strings.HasSuffix(s, "*string") && !strings.Contains(s, "Holidays"))
 					if !ok {
 						res.Add(Finding{Kind: "violation", What: "a text-unmarshalable container leaf was translated into another type (a mangler recursed into it: the unnamed copy has lost UnmarshalText)", Case: cs, Observed: s})
 						break
@@ -178,6 +198,7 @@ func c10OpaqueContainers(c *Ctx) {
 				chk("Backends", got.FieldByName("Backends"), want)
 				chk("Primary", got.FieldByName("Primary"), c10Pair{want[0], want[1]})
 				chk("Opt", got.FieldByName("Opt"), want)
+				chk("Holidays", got.FieldByName("Holidays"), days)
 				sec := got.FieldByName("Section")
 				for sec.Kind() == reflect.Ptr && !sec.IsNil() {
 					sec = sec.Elem()
@@ -189,6 +210,46 @@ func c10OpaqueContainers(c *Ctx) {
 				}
 			}
 			res.Case(fmt.Sprintf("opaque|%s|%s", name, text), true, cs)
+		}
+	}
+	// anonymous-flatten over an embedded pointer to a struct with an interface-typed field
+	ept := ptrify.Pointerify(reflect.TypeOf(c10ECfg{}), reflect.ValueOf(c10ECfg{}))
+	for _, fillPort := range []bool{false, true} {
+		for name, chain := range map[string][]transform.Mangler{"anon": {transform.AnonymousFlattenMangler{}}, "anon+setslice": {transform.AnonymousFlattenMangler{}, &transform.SetSliceMangler{}}} {
+			cs := map[string]any{"stream": "embedded pointer to a struct with an interface-typed field", "chain": name, "only_Port_filled": fillPort}
+			tf := transform.NewTransformer(ept, chain...)
+			var out reflect.Value
+			var err error
+			pn := catch(func() {
+				var val reflect.Value
+				if val, err = tf.Translate(); err != nil {
+					return
+				}
+				if fillPort {
+					if f := val.FieldByName("Port"); f.IsValid() && f.Kind() == reflect.Ptr {
+						x := 8080
+						f.Set(reflect.ValueOf(&x))
+					}
+				}
+				out, err = tf.ReverseTranslate(val)
+			})
+			switch {
+			case pn != "":
+				res.Add(Finding{Kind: "violation", What: "translate / reverse panicked: " + pn, Case: cs})
+			case err != nil:
+				res.Add(Finding{Kind: "violation", What: "translate / reverse failed: " + err.Error(), Case: cs})
+			default:
+				for out.Kind() == reflect.Ptr {
+					out = out.Elem()
+				}
+				emb := out.FieldByName("C10ECommon")
+				if !emb.IsValid() {
+					res.Add(Finding{Kind: "violation", What: "the embedded struct is missing from the reversed value", Case: cs, Observed: out.Type().String()})
+				} else if emb.Kind() == reflect.Ptr && !emb.IsNil() {
+					res.Add(Finding{Kind: "violation", What: "no field of the embedded struct was filled, yet it reverses to a non-nil pointer: a source that found nothing would clobber lower layers", Case: cs, Observed: fmt.Sprintf("%+v", emb.Elem().Interface())})
+				}
+			}
+			res.Case(fmt.Sprintf("opaque-embedded|%s|%v", name, fillPort), true, cs)
 		}
 	}
 }
